@@ -26,6 +26,8 @@ hypothesis says otherwise.
   components have no separator flag (separator in special values only). There the buffer is not contiguous and the
   digit counts of `parse_number` come from `increment_count`; the proof needs every digit to be counted exactly once,
   which holds since /repo 7e8a135 (8-digit blocks) — `regression_*` below are the former failing inputs.
+* formats WITH separator flags on integer / fraction / exponent: `Props/C11Sep.lean` (`partial_prefix_sep`, every
+  separator predicate, number and special-value results; exact exclusion = the open defect of `witness_B_hexfloat_sep`).
 -/
 namespace LexVerif.Props.C11
 open LexVerif LexVerif.Model LexVerif.Spec
